@@ -11,16 +11,19 @@ FS = ['--max-field-sensitivity-array-size', '600', '--object-bits', '12', '--no-
 def S(conc, ops, **kw):
     d = {'CONC': conc, 'OPS': ops, 'ACCS': 0, 'SYMACC': 1}
     d.update(kw); return d
+def C(conc, ops, accs, **kw):
+    d = {'CONC': conc, 'OPS': ops, 'ACCS': accs}
+    d.update(kw); return d
 FQ_QUICK = [
   S(1, '1,1,8,1,8', FIFO=1), S(1, '1,1,1,8,8', FIFO=1, NESTB=1), S(2, '1,1,1,8,8,1'), S(0, '1,1,1,8,8,1'),
-  S(1, '1,1,1,2,5,8', FIFO=1), S(2, '6,1,1,8,7,1'), S(1, '1,1,8,9,1', NSUCC=2, FLIPS='1,2,3', FIFO=1), S(1, '1,1,8,1,8', EXTIN=1, FIFO=1),
+  S(1, '1,1,1,2,5,8', FIFO=1), S(2, '6,1,1,8,7,1'), C(1, '1,2,1,9,1,2', '0,1,2', NSUCC=2, FLIPS='1,2', FIFO=1), S(1, '1,1,8,1,8', EXTIN=1, FIFO=1),
 ]
 FR_QUICK = [
-  S(1, '1,1,8,1,1,8'), S(2, '1,1,1,8,1,8'), S(1, '4,8,8,8', AVAIL=2), S(1, '1,4,1,8,8,8', AVAIL=2), S(2, '4,8,8,8,8', AVAIL=3), S(1, '1,4,5,8,8', AVAIL=2),
+  S(1, '1,1,8,1,1,8'), S(2, '1,1,1,8,1,8'), S(1, '4,8,8,8', AVAIL=2), S(1, '1,4,1,2,2,2', AVAIL=2), S(1, '1,4,1,3,2,2', AVAIL=2), S(2, '4,8,8,8,8', AVAIL=3), S(1, '1,4,5,8,8', AVAIL=2),
   S(1, '1,1,8', NESTB=1, NESTS=1),
 ]
 FL_QUICK = [
-  S(1, '1,1,8,1', NESTB=1, NESTS=1), S(2, '1,1,8,1', NESTB=3), S(0, '1,1', NESTB=1, NESTS=2),
+  S(1, '1,1,8,1', NESTB=1), S(2, '1,1,8,1', NESTB=3), S(0, '1,1', NESTB=1),
 ]
 def FN(name, unit, rej, lw, scs, desc):
     return dict(name=name, unit=unit, harness='h_fnode.c', cbmc=['--unwind', '40'] + FS, defines={'memset': 'vp_memset', 'REJ': rej, 'LW': lw},
